@@ -13,17 +13,52 @@
 //! running a packet, the monitor shows no goal / no request / zero parked workers after the stop,
 //! all of C14's and C15's clauses hold for the collections before and after (nothing lost, the
 //! following collection completes, final quiescent state).
+//!
+//! Scenario `forkreq` (signatures `fork:<clause>:forkreq`): a second thread makes a forced collection
+//! request while the controller calls `prepare_to_fork()`, both starting at quiescence; every
+//! interleaving within the bound, so the fork request arrives before / while / after the GC goal
+//! is current and the GC request before / while / after StopForFork is current; all workers must
+//! exit, the round trip completes, the request is served before or after it (C14's clause), a
+//! further collection works.
 
-use crate::common::Run;
+use crate::common::{Run, Tier};
+use crate::props::sched::{ChildCfg, Job, Kind, Pattern, Plan};
 use crate::props::{c14, sched};
 use serde_json::Value;
 
 pub fn owns(sig: &str) -> bool {
-    sig.ends_with(":fork") && (sig.starts_with("fork:") || sig.starts_with("sched:") || sig.starts_with("stage:"))
+    (sig.ends_with(":fork") && (sig.starts_with("fork:") || sig.starts_with("sched:") || sig.starts_with("stage:"))) || (sig.ends_with(":forkreq") && sig.starts_with("fork:"))
+}
+
+/// Scenario `forkreq` (a collection request and `prepare_to_fork` in flight together; see
+/// `sched::Kind::Forkreq`): C16 owns the `fork:` verdicts of these children, C14 the `sched:` ones;
+/// both checks run them.  Measured (SemiSpace, 2 workers): 192 executions at <= 1 preemption without
+/// free deviations, 4 759 with <= 1 free deviation.
+pub fn forkreq_plans(tier: Tier) -> Vec<Plan> {
+    let thorough = tier == Tier::Thorough;
+    let names: Vec<&str> = if thorough { vec!["SemiSpace", "MarkSweep", "Immix", "GenCopy"] } else { vec!["SemiSpace"] };
+    let mut out = vec![];
+    for (pi, plan) in names.iter().enumerate() {
+        let worker_counts: Vec<usize> = if thorough && pi < 2 { vec![2, 3] } else { vec![2] };
+        for workers in worker_counts {
+            let cfg = ChildCfg { plan: plan.to_string(), workers, eph_chain: 1, refs: false, options: vec![], mutators: 1, bare: false };
+            let job = |bound: u32, free_bound: u32| Job { kind: Kind::Forkreq, pattern: Pattern::empty(), via_worker: false, bound, free_bound, spurious: 0, prog: vec![] };
+            if !thorough {
+                out.push(Plan { cfg: cfg.clone(), jobs: vec![job(1, 0)] });
+            } else {
+                out.push(Plan { cfg: cfg.clone(), jobs: vec![job(1, 1)] });
+                if pi < 2 && workers == 2 {
+                    out.push(Plan { cfg: cfg.clone(), jobs: vec![job(2, 0)] });
+                }
+            }
+        }
+    }
+    out
 }
 
 pub fn run(run: &mut Run) {
-    let plans = c14::plans(run.tier, true);
+    let mut plans = c14::plans(run.tier, true);
+    plans.extend(forkreq_plans(run.tier));
     run.set("child_processes", plans.len() as u64);
     sched::run_parent(run, plans, &owns, run.tier.pick(300, 3000));
     c14::finish(run);
